@@ -131,7 +131,7 @@ FLOORS = {
     "C10": {"quick": {"cases": 800, "distinct_nontrivial": 50, "c10_in_checks": 100000, "c10_out_checks": 5000}},
     "C11": {"quick": {"cases": 1500, "distinct_nontrivial": 200, "c11_node_can_put_checked": 3000, "c11_delay_draws_checked": 5000}},
     "C15": {"quick": {"cases": 800, "distinct_nontrivial": 100, "c15_nodes_out_checked": 1000, "c15_fa_out_checks": 3000}},
-    "C16": {"quick": {"cases": 800, "distinct_nontrivial": 200, "c16_pallets_checked": 3000, "unpacks": 1000}},
+    "C16": {"quick": {"cases": 800, "distinct_nontrivial": 200, "c16_pallets_checked": 3000, "unpacks": 1000, "c16_splitter_pallets_checked": 500}},
     "C17": {"quick": {"cases": 800, "distinct_nontrivial": 300, "c17_nodes_checked": 3000, "c17_integrations": 2000}},
     "C18": {"quick": {"cases": 1500, "distinct_nontrivial": 200, "c18_edge_avg_checks": 3000, "c18_received_items": 10000}},
     "C19": {"quick": {"cases": 60, "distinct_nontrivial": 20, "c19_runs_compared": 250, "c19_child_interpreters": 100}},
